@@ -32,6 +32,7 @@ def run_one(prop, tier, seed, src=None, write=True, out=sys.stdout):
 
             selfval.run(prop, mod, ctx, s)
 
+    src = (src or core.Src(core.REPO)).variant(bool(getattr(mod, "CANON", False)))
     return core.run_property(prop, fn, tier, seed, src=src, write=write, out=out)
 
 
@@ -52,10 +53,9 @@ def main(argv=None):
     if a.repo:
         core.REPO = a.repo
     src = core.Src(core.REPO)
-    if a.prop == "all":
+    if a.prop == "all" or "," in a.prop:
         worst = 0
-        for i in range(1, 42):
-            p = f"C{i:02d}"
+        for p in ([f"C{i:02d}" for i in range(1, 42)] if a.prop == "all" else a.prop.upper().split(",")):
             if load(p) is None:
                 continue
             st, _ = run_one(p, tier, seed, core.Src(core.REPO), write=not a.no_write)
